@@ -17,8 +17,8 @@ FULL = os.environ.get("C12_FULL", "0") == "1"
 _CUR: typing.List[FakeFS] = [FakeFS()]
 
 
-def _open(name, mode="r", encoding=None):
-    return _CUR[0].open(name, mode, encoding)
+def _open(name, mode="r", encoding=None, **kw):
+    return _CUR[0].open(name, mode, encoding, **kw)
 
 
 class _Shutil:
@@ -69,7 +69,7 @@ def step_template(exists: bool, mode: int, file_mode: int, allow_overwrite: bool
     fs = FakeFS()
     _CUR[0] = fs
     if exists:
-        fs.put("out/x.h", "OLD", mode)
+        fs.put("out/x.h", "OLD CONTENT THAT IS LONGER THAN THE NEW ONE\n", mode)
     fs.put("out/foreign", "F", 0o400)
     g = object.__new__(DSDLCodeGenerator)
     g._env = _Env()
@@ -82,7 +82,7 @@ def step_template(exists: bool, mode: int, file_mode: int, allow_overwrite: bool
     foreign_ok = fs.files["out/foreign"] == ["F", 0o400]
     if exists and not allow_overwrite:
         # never changes content or mode of a file that existed before, and reports the conflict
-        return raised and fs.files["out/x.h"] == ["OLD", mode] and foreign_ok
+        return raised and fs.files["out/x.h"] == ["OLD CONTENT THAT IS LONGER THAN THE NEW ONE\n", mode] and foreign_ok
     # byte-identical to a run into an empty directory, with the requested permission bits -- also over read-only files
     return (not raised) and fs.files["out/x.h"] == [_expected(line_pp), file_mode] and foreign_ok and len(fs.files) == 2
 
@@ -96,7 +96,7 @@ def step_copy(exists: bool, mode: int, file_mode: int, allow_overwrite: bool, li
     _CUR[0] = fs
     fs.put("res/x.h", NEW, 0o444)          # packaged resources are typically read-only
     if exists:
-        fs.put("out/x.h", "OLD", mode)
+        fs.put("out/x.h", "OLD CONTENT THAT IS LONGER THAN THE NEW ONE\n", mode)
     fs.put("out/foreign", "F", 0o400)
     g = object.__new__(SupportGenerator)
     pps = _pps(file_mode, line_pp)
@@ -109,7 +109,7 @@ def step_copy(exists: bool, mode: int, file_mode: int, allow_overwrite: bool, li
         raised = True
     untouched = fs.files["out/foreign"] == ["F", 0o400] and fs.files["res/x.h"] == [NEW, 0o444]
     if exists and not allow_overwrite:
-        return raised and fs.files["out/x.h"] == ["OLD", mode] and untouched
+        return raised and fs.files["out/x.h"] == ["OLD CONTENT THAT IS LONGER THAN THE NEW ONE\n", mode] and untouched
     return (not raised) and fs.files["out/x.h"] == [_expected(line_pp), file_mode] and untouched and len(fs.files) == 3
 
 
